@@ -229,6 +229,43 @@ func (e *Engine) Exec(step int, cmd *Cmd) {
 		}
 		return
 	}
+	if e.stop && e.Twin == "decompose" && cmd.C%2 == 0 && cmd.Op == "BatchWrite" && !batchMalformed(cmd) && len(e.res.Fails) == 0 && e.res.Quiet == "" && e.res.OtherRule != "" &&
+		e.M.Clients[cmd.C].Fail == "none" && e.res.Steps[len(e.res.Steps)-1].Out.OK() {
+		// the state a successful batch left behind broke another property's rule
+		// against the model: the twin still performs the decomposition, and if the
+		// two clients then show different states the batch did not equal its
+		// item-by-item decomposition - C19's violation, reported as such. When
+		// both sides are wrong in the same way the other rule stands.
+		other, otherFails := e.res.OtherRule, e.res.OtherFails
+		complete := true // every request of the decomposition went through on the twin
+		for i, r := range cmd.Batch {
+			s := &Cmd{ID: -cmd.ID - 1000000 - i - 1, C: cmd.C + 1, T: r.T, Actor: "twin"}
+			if r.Put != nil {
+				s.Op, s.Item = "Put", r.Put
+			} else {
+				s.Op, s.Key = "Delete", r.Del
+			}
+			// every step observes all clients, so the batch client's state keeps
+			// tripping the other rule: that alone does not end the decomposition
+			e.stop, e.res.OtherRule = false, ""
+			e.exec1(step, s, true)
+			if last := e.res.Steps[len(e.res.Steps)-1]; !last.Twin || last.Skipped || !last.Out.OK() || len(e.res.Fails) > 0 || e.res.Quiet != "" {
+				complete = false
+				break
+			}
+		}
+		e.res.OtherFails = otherFails
+		e.stop = true
+		if len(e.res.Fails) == 0 {
+			e.res.OtherRule = other
+			if a, b := e.lastSig[cmd.C], e.lastSig[cmd.C+1]; complete && a != b {
+				e.res.OtherRule = ""
+				e.res.Fails = []Fail{{"C19.write", "observable states of the twin clients differ after " + cmd.Op + ": " + DiffSignatures(a, b)}}
+				e.res.FailStep, e.res.FailCmd = step, cmd
+			}
+		}
+		return
+	}
 	if e.stop || e.Twin == "" || cmd.Op == "Poke" {
 		return
 	}
